@@ -11,7 +11,7 @@ SC = {'': 0, 'ep': 1, 'castle': 2, 'check': 4}
 
 def cases(tier):
     """(material string, scenario) pairs"""
-    if tier == 'quick': return [('KPk', ''), ('Kkp', ''), ('KNk', '', 'w'), ('KRk', '', 'w'), ('KPkpb', 'ep', 'w'), ('KBkPp', 'ep', 'b'), ('KRRk', 'castle', 'w')]
+    if tier == 'quick': return [('KPk', ''), ('Kkp', ''), ('KNk', '', 'w'), ('KRk', '', 'w'), ('KPkpq', 'ep', 'w'), ('KQkPp', 'ep', 'b'), ('KRRk', 'castle', 'w')]
     t = [(material.name(m), '') for m in material.M(3)]
     t += [('KPkp', 'ep'), ('KPkpb', 'ep'), ('KPkpr', 'ep'), ('KPkpq', 'ep'), ('KBkPp', 'ep'), ('KRkPp', 'ep'), ('KQkPp', 'ep'), ('KPPkp', 'ep'), ('KPkpp', 'ep'),
           ('KRRk', 'castle'), ('Kkrr', 'castle'), ('KRRkn', 'castle'), ('KRRkb', 'castle'), ('KRRkr', 'castle'), ('KRRkq', 'castle'), ('KRRkp', 'castle'),
